@@ -9,11 +9,13 @@ package engines
 
 import (
 	"bytes"
+	"context"
 	"encoding/json"
 	"fmt"
 	"math/rand"
 	"sort"
 	"strings"
+	"sync"
 	"time"
 
 	wrapping "github.com/hashicorp/go-kms-wrapping/v2"
@@ -65,6 +67,7 @@ type azToken struct {
 }
 
 type azWorld struct {
+	gate      *azGate
 	c         *engine.Ctx
 	ac        azCase
 	s         *world.Server
@@ -251,7 +254,7 @@ func (w *azWorld) operator() {
 	}
 }
 
-var azNonceKinds = []string{"own", "other-node", "fresh32", "token-unused", "token-used", "token-expired", "token-never-issued", "garbage", "token-from-storage-id"}
+var azNonceKinds = []string{"own", "own", "own", "other-node", "fresh32", "token-unused", "token-used", "token-expired", "token-never-issued", "garbage", "token-from-storage-id"}
 var azWrappedKinds = []string{"none", "none", "none", "match", "other-nonce", "other-key", "foreign-wrapper", "garbage"}
 var azRewrappedKinds = []string{"none", "none", "none", "none", "match", "mismatch-nonce", "mismatch-key", "by-removed", "wrong-keyid", "garbage", "reflected-server-answer"}
 
@@ -608,6 +611,130 @@ func (w *azWorld) witness(f azFetch) map[string]any {
 	return map[string]any{"history": w.ac, "fetch": f, "trace_tail": append([]string{}, w.trace...)}
 }
 
+// azGate sits on top of the server storage. Armed, it parks the first load of a node record until released, so
+// that a second call can be made while the first is provably in the middle of its work.
+type azGate struct {
+	nodeenrollment.Storage
+	mu      sync.Mutex
+	armed   bool
+	seen    int
+	arrived chan struct{}
+	release chan struct{}
+}
+
+func (g *azGate) arm() {
+	g.mu.Lock()
+	g.armed, g.seen, g.arrived, g.release = true, 0, make(chan struct{}), make(chan struct{})
+	g.mu.Unlock()
+}
+
+func (g *azGate) Load(ctx context.Context, m nodeenrollment.MessageWithId) error {
+	if _, ok := m.(*types.NodeInformation); ok {
+		g.mu.Lock()
+		park := g.armed && g.seen == 0
+		if g.armed {
+			g.seen++
+		}
+		arrived, release := g.arrived, g.release
+		g.mu.Unlock()
+		if park {
+			close(arrived)
+			select {
+			case <-release:
+			case <-time.After(15 * time.Second):
+			}
+		}
+	}
+	return g.Storage.Load(ctx, m)
+}
+
+// concurrentPair: an authorized node's own fetch is in the middle of its work (parked on its first record load)
+// when a second, well-signed request for the same certificate key arrives with another encryption key or another
+// nonce. Each request is judged on its own: the altered one gets no credentials, whatever the first one is doing.
+func (w *azWorld) concurrentPair(step int) {
+	r := w.c.R
+	id := w.pick("authorized")
+	if id == nil || w.gate == nil {
+		return
+	}
+	honest := world.Sign(world.BaseInfo(id.n.K, id.n.Enc.Pub, id.n.Nonce), id.n.K.Priv)
+	what := []string{"encryption-key", "nonce", "both"}[w.rng.Intn(3)]
+	enc, nonce := id.n.Enc.Pub, id.n.Nonce
+	if what != "nonce" {
+		enc = world.NewX25519().Pub
+	}
+	if what != "encryption-key" {
+		nonce = world.RandBytes(32)
+	}
+	altered := world.Sign(world.BaseInfo(id.n.K, enc, nonce), id.n.K.Priv)
+	type res struct {
+		resp *types.FetchNodeCredentialsResponse
+		err  error
+		p    any
+		st   string
+	}
+	run := func(req *types.FetchNodeCredentialsRequest, out chan res) {
+		var x res
+		x.p, x.st = engine.Guard(func() { x.resp, x.err = registration.FetchNodeCredentials(w.s.Ctx, w.s.Store, req, w.callOpts()...) })
+		out <- x
+	}
+	w.gate.arm()
+	hc, ac := make(chan res, 1), make(chan res, 1)
+	go run(honest, hc)
+	select {
+	case <-w.gate.arrived:
+	case h := <-hc:
+		// the honest fetch never loaded a node record (refused earlier): nothing to learn here
+		w.gate.mu.Lock()
+		w.gate.armed = false
+		w.gate.mu.Unlock()
+		_ = h
+		r.Count("concurrent_pairs_without_a_parked_fetch", 1)
+		return
+	case <-time.After(10 * time.Second):
+		r.Inconclusive("authz: the honest fetch of a concurrent pair neither parked nor returned")
+		return
+	}
+	go run(altered, ac)
+	var a res
+	gotA := false
+	select {
+	case a = <-ac:
+		gotA = true
+	case <-time.After(300 * time.Millisecond):
+	}
+	close(w.gate.release)
+	w.gate.mu.Lock()
+	w.gate.armed = false
+	w.gate.mu.Unlock()
+	if !gotA {
+		select {
+		case a = <-ac:
+		case <-time.After(20 * time.Second):
+			r.Inconclusive("authz: the altered fetch of a concurrent pair did not return")
+			return
+		}
+		r.Count("concurrent_pairs_where_the_second_fetch_waited_for_the_first", 1)
+	}
+	h := <-hc
+	desc := fmt.Sprintf("%s step %d concurrent pair altered=%s", engine.J(w.ac), step, what)
+	r.Eval(desc, true)
+	r.Count("concurrent_pairs_judged", 1)
+	wit := map[string]any{"history": w.ac, "altered": what, "trace_tail": append([]string{}, w.trace...)}
+	switch {
+	case a.p != nil:
+		r.Violation("panic:"+engine.LibraryFrame(a.st), fmt.Sprintf("FetchNodeCredentials panicked: %v", a.p), wit)
+	case a.err == nil && a.resp != nil && len(a.resp.EncryptedNodeCredentials) > 0:
+		r.Violation("unauthorized-credentials:altered-request-while-the-authorized-fetch-of-the-same-key-is-running,altered="+what, "a well-signed request whose "+what+" differs from the authorization was answered with credentials because the authorized node's own fetch was in progress at that moment", wit)
+	default:
+		r.Count("concurrent_pairs:altered_request_refused", 1)
+	}
+	if h.p == nil && h.err == nil && h.resp != nil && len(h.resp.EncryptedNodeCredentials) > 0 {
+		r.Count("concurrent_pairs:honest_request_answered", 1)
+	}
+	w.log("concurrent pair (altered %s)", what)
+}
+
 func runAzCase(c *engine.Ctx, ac azCase) {
 	var rec *recstore.Rec
 	// the storage wrapper (where there is one) sits behind a key service that can be made to fail single calls
@@ -618,21 +745,33 @@ func runAzCase(c *engine.Ctx, ac azCase) {
 			return rec.Wrap()
 		}
 	}
+	var gate *azGate
+	inner := cfg.Wrap
+	cfg.Wrap = func(in nodeenrollment.Storage) nodeenrollment.Storage {
+		if inner != nil {
+			in = inner(in)
+		}
+		gate = &azGate{Storage: in}
+		return gate
+	}
 	s, err := world.NewServer(cfg)
 	if err != nil {
 		c.R.Broken(err.Error())
 		return
 	}
 	defer s.Close()
-	w := &azWorld{c: c, ac: ac, s: s, rng: rand.New(rand.NewSource(ac.Seed)), wrapperOn: true, rec: rec}
+	w := &azWorld{c: c, ac: ac, s: s, rng: rand.New(rand.NewSource(ac.Seed)), wrapperOn: true, rec: rec, gate: gate}
 	// seed the cast
 	for i := 0; i < 3; i++ {
 		w.operator()
 	}
 	for step := 0; step < ac.Steps; step++ {
-		if w.rng.Intn(5) < 2 {
+		switch x := w.rng.Intn(20); {
+		case x < 8:
 			w.operator()
-		} else {
+		case x == 8:
+			w.concurrentPair(step)
+		default:
 			w.fetch(step)
 		}
 		if c.R.NumViolations() > 20 {
@@ -659,7 +798,7 @@ func runAuthz(c *engine.Ctx) engine.Result {
 		return res
 	}
 	rng := c.Rng("authz")
-	n := c.Pick(400, 4000)
+	n := c.Pick(1000, 6000)
 	steps := c.Pick(30, 45)
 	var cases []azCase
 	for i := 0; i < n; i++ {
@@ -675,6 +814,7 @@ func runAuthz(c *engine.Ctx) engine.Result {
 	r.Require("issued_under:(a) existing matching record", 20)
 	r.Require("issued_under:(b) unused unexpired token", 10)
 	r.Require("fetches_judged_with_a_storage_fault", 50)
+	r.Require("concurrent_pairs:altered_request_refused", 30)
 	r.Require("fetches_judged_with_a_failing_storage_wrapper_call", 20)
 	r.Require("issued_under:(c) sealed registration info", 20)
 	r.Require("refused", 500)
